@@ -216,6 +216,11 @@ func init() {
 		w.ext["prefer"] = append(l[:len(l):len(l)], args[0].(*Term))
 		return nil
 	})
+	reg("verifnd.AbstractBigMod", func(w *World, t *Thread, fr *frame, fn *ssa.Function, args []Value) Value {
+		w.ext["absmod"] = true
+		w.res.Cuts["big.Int.Mod abstracted to an uninterpreted function with its range facts (over-approximation)"]++
+		return nil
+	})
 	reg("verifnd.FixRandom", func(w *World, t *Thread, fr *frame, fn *ssa.Function, args []Value) Value {
 		w.ext["fixrandom"] = args[0].(*Term)
 		return nil
